@@ -181,6 +181,10 @@ fn history(h: &[(usize, usize)], out: &mut Partial) {
     let ts = targets(own);
     let ids = crate::epnet::ranked_ids(&ts[1], 4);
     let mut net = EpNet::new(&mut w, &ids);
+    // the node closest to t1 answers without a write token (a BEP5-only node): the closest
+    // nodes of a lookup then differ from its token-bearing responders, and so do the two size
+    // estimates that are added to and later subtracted from the counters
+    net.eps[0].issue_token = false;
     let boots = net.addrs()[..1].to_vec();
     let a = w.add_node(NodeCfg::new([9, 9, 9, 9], 7000).bootstrap(&boots).id(own));
     let pump = |w: &mut World, net: &mut EpNet, ev: &Event| {
@@ -328,9 +332,20 @@ fn cache_roll(out: &mut Partial) {
     sequence.insert(700, 250);
     sequence.push(1);
     sequence.push(900);
+    // a write that REUSES a cached lookup (announce_peer on target 2, looked up with get_peers
+    // about a minute earlier) just before the cache fills up: using an entry is a use
+    const REUSE: usize = usize::MAX;
+    sequence.insert(990, REUSE);
     for (n, i) in sequence.iter().enumerate() {
-        let t = target(*i);
-        let call = if n % 3 == 0 { w.call_find_node(a, t.into()) } else { w.call_get_peers(a, t.into()) };
+        let reuse = *i == REUSE;
+        let t = target(if reuse { 2 } else { *i });
+        let call = if reuse {
+            w.call_announce_peer(a, t.into(), Some(4040))
+        } else if n % 3 == 0 {
+            w.call_find_node(a, t.into())
+        } else {
+            w.call_get_peers(a, t.into())
+        };
         let hz = w.now + 60 * SEC;
         w.run_until(hz, |w, ev| {
             pump(w, &mut net, ev);
